@@ -22,6 +22,10 @@ def add(name, ins, outs, body, pre=None, bounds='all argument values', known=(),
     U.add(name, ins, outs, body); T[name] = (pre, bounds, list(known), unwind)
 ITY = ['i8', 'u8', 'i16', 'u16', 'i32', 'u32', 'i64', 'u64']
 def smin(W): return 1 << (W - 1)
+def _dist(x, y):
+    w = x.size(); mx = z3.ZeroExt(3, z3.Extract(w - 2, 0, x)); my = z3.ZeroExt(3, z3.Extract(w - 2, 0, y))
+    same = z3.Extract(w - 1, w - 1, x) == z3.Extract(w - 1, w - 1, y)
+    return z3.If(same, z3.If(z3.UGE(mx, my), mx - my, my - mx), mx + my)
 for t in ITY:
     c = ITYPES[t]; W = width(t); sg = is_signed(t)
     if sg:
@@ -32,17 +36,17 @@ for t in ITY:
     add('bits_' + t, [(c, 1)], [('int', 3)], 'o[0] = glm::bitCount(a[0]); o[1] = glm::findLSB(a[0]); o[2] = glm::findMSB(a[0]);')
     add('bitsv_' + t, [(c, 2)], [('int', 2)] * 3, 'stv(o, glm::bitCount(ldv<2,%s>(a))); stv(o2, glm::findLSB(ldv<2,%s>(a))); stv(o3, glm::findMSB(ldv<2,%s>(a)));' % (c, c, c))
     fld = lambda i, W=W: [i[1][0] >= 0, i[1][1] >= 0, i[1][0] + i[1][1] <= W, i[1][0] <= W, i[1][1] <= W]
-    add('extract_' + t, [(c, 1), ('int', 2)], [(c, 1)], 'o[0] = glm::bitfieldExtract(a[0], b[0], b[1]);', fld, '0 <= offset, 0 <= bits, offset + bits <= %d' % W)
+    add('extract_' + t, [(c, 1), ('int', 2)], [(c, 1)], 'o[0] = glm::bitfieldExtract(a[0], b[0], b[1]);', fld, '0 <= offset, 0 <= bits, offset + bits <= %d' % W, known=['KF-C20-bitfieldExtract-offset-width'])
     if W >= 32:
         add('reverse_' + t, [(c, 1)], [(c, 1)], 'o[0] = glm::bitfieldReverse(a[0]);')
-        add('insert_' + t, [(c, 2), ('int', 2)], [(c, 1)], 'o[0] = glm::bitfieldInsert(a[0], a[1], b[0], b[1]);', fld, '0 <= offset, 0 <= bits, offset + bits <= %d' % W)
+        add('insert_' + t, [(c, 2), ('int', 2)], [(c, 1)], 'o[0] = glm::bitfieldInsert(a[0], a[1], b[0], b[1]);', fld, '0 <= offset, 0 <= bits, offset + bits <= %d' % W, known=['KF-C20-bitfieldInsert-offset-width'] + (['KF-C20-bitfieldInsert-signed-shift'] if sg else []))
     # gtc/bitfield
     add('mask_' + t, [(c, 1)], [(c, 1)], 'o[0] = glm::mask(a[0]);', (lambda i, W=W: [i[0][0] >= 0]) if sg else None, 'non-negative bit count')
     rot = lambda i, W=W: [i[1][0] >= 0, i[1][0] < W]
     add('rotr_' + t, [(c, 1), ('int', 1)], [(c, 1)], 'o[0] = glm::bitfieldRotateRight(a[0], b[0]);', rot, '0 <= shift < %d' % W)
     add('rotl_' + t, [(c, 1), ('int', 1)], [(c, 1)], 'o[0] = glm::bitfieldRotateLeft(a[0], b[0]);', rot, '0 <= shift < %d' % W)
     fl = lambda i, W=W: [i[1][0] >= 0, i[1][1] >= 0, i[1][0] + i[1][1] <= W, i[1][0] <= W, i[1][1] <= W]
-    add('fill_' + t, [(c, 1), ('int', 2)], [(c, 2)], 'o[0] = glm::bitfieldFillOne(a[0], b[0], b[1]); o[1] = glm::bitfieldFillZero(a[0], b[0], b[1]);', fl, '0 <= first, 0 <= count, first + count <= %d' % W)
+    add('fill_' + t, [(c, 1), ('int', 2)], [(c, 2)], 'o[0] = glm::bitfieldFillOne(a[0], b[0], b[1]); o[1] = glm::bitfieldFillZero(a[0], b[0], b[1]);', fl, '0 <= first, 0 <= count, first + count <= %d' % W, known=['KF-C20-bitfieldFill-first-width'])
     # ext/scalar_integer + gtc/round
     pos = (lambda i, W=W: [i[0][0] > 0, i[0][0] <= (1 << (W - 2))]) if sg else (lambda i, W=W: [i[0][0] != 0, z3.ULE(i[0][0], 1 << (W - 1))])
     add('pow2_' + t, [(c, 1)], [('bool', 1), (c, 5)], 'o[0] = glm::isPowerOfTwo(a[0]); o2[0] = glm::nextPowerOfTwo(a[0]); o2[1] = glm::prevPowerOfTwo(a[0]); o2[2] = glm::ceilPowerOfTwo(a[0]); o2[3] = glm::floorPowerOfTwo(a[0]); o2[4] = glm::roundPowerOfTwo(a[0]);',
@@ -61,18 +65,18 @@ add('interleave_s', [('int32_t', 2), ('int16_t', 3), ('int8_t', 4)], [('int64_t'
 add('ivecops', [('int32_t', 4), ('int32_t', 4)], [('int32_t', 4)] * 2, 'stv(o, ldv<4,int32_t>(a) / ldv<4,int32_t>(b)); stv(o2, ldv<4,int32_t>(a) % ldv<4,int32_t>(b));',
     lambda i: [y != 0 for y in i[1]] + [z3.Not(z3.And(x == (1 << 31), y == -1)) for x, y in zip(i[0], i[1])], 'divisor != 0, not INT_MIN / -1')
 add('gtxint', [('int32_t', 2), ('uint32_t', 1)], [('int32_t', 3), ('uint32_t', 2)], 'o[0] = glm::mod(a[0], a[1]); o[1] = glm::factorial(a[0]); o[2] = glm::sqrt(a[0]); o2[0] = glm::nlz(b[0]); o2[1] = glm::log2(b[0] | 1u);',
-    lambda i: [i[0][0] >= 0, i[0][0] <= 12, i[0][1] > 0], '0 <= x <= 12 (factorial representable), y > 0', unwind=14)
+    lambda i: [i[0][0] >= 0, i[0][0] <= 12, i[0][1] > 0, i[0][1] <= (1 << 30)], '0 <= x <= 12 (factorial representable), 0 < y <= 2^30', unwind=14)
 for s_, Tf, W in (('f', 'float', 32), ('d', 'double', 64)):
     for f in 'floor ceil trunc round roundEven fract abs sign'.split():
         add('%s_%s' % (f, s_), [(Tf, 1)], [(Tf, 1)], 'o[0] = glm::%s(a[0]);' % f, known=['KF-C20-roundEven-int-cast'] if f == 'roundEven' else ())
     add('roundEvenv_' + s_, [(Tf, 3)], [(Tf, 3)], 'stv(o, glm::roundEven(ldv<3,%s>(a)));' % Tf, known=['KF-C20-roundEven-int-cast'])
     add('modf_' + s_, [(Tf, 2)], [(Tf, 3)], '%s ip; o[0] = glm::modf(a[0], ip); o[1] = ip; o[2] = glm::mod(a[0], a[1]);' % Tf)
-    rep = lambda i, W=W: [z3.Not(is_nan(i[0][0])), z3.fpLT(z3.fpAbs(z3.fpRoundToIntegral(z3.RNA(), fpof(i[0][0]))), FPV(2.0 ** 31, W))]
-    add('iround_' + s_, [(Tf, 1)], [('int32_t', 1)], 'o[0] = glm::iround(a[0]);', rep, 'the nearest integer of x is representable as int', known=['KF-C20-iround-x-plus-half'])
+    rep = lambda i, W=W: [z3.Not(is_nan(i[0][0])), z3.fpGEQ(fpof(i[0][0]), FPV(0.0, W)), z3.fpLT(z3.fpRoundToIntegral(z3.RNA(), fpof(i[0][0])), FPV(2.0 ** 31, W))]
+    add('iround_' + s_, [(Tf, 1)], [('int32_t', 1)], 'o[0] = glm::iround(a[0]);', rep, 'x >= 0 (asserted by glm) and the nearest integer of x representable as int', known=[])
     add('uround_' + s_, [(Tf, 1)], [('uint32_t', 1)], 'o[0] = glm::uround(a[0]);', lambda i, W=W: [z3.Not(is_nan(i[0][0])), z3.fpGEQ(fpof(i[0][0]), FPV(0.0, W)), z3.fpLT(z3.fpRoundToIntegral(z3.RNA(), fpof(i[0][0])), FPV(2.0 ** 32, W))],
-        'x >= 0 and the nearest integer of x representable as uint', known=['KF-C20-uround-x-plus-half'])
+        'x >= 0 and the nearest integer of x representable as uint', known=[])
     add('wrap_' + s_, [(Tf, 1)], [(Tf, 4)], 'o[0] = glm::clamp(a[0]); o[1] = glm::repeat(a[0]); o[2] = glm::mirrorClamp(a[0]); o[3] = glm::mirrorRepeat(a[0]);')
-    add('ulp_' + s_, [(Tf, 2)], [(Tf, 2), ('int64_t', 1)], 'o[0] = glm::nextFloat(a[0]); o[1] = glm::prevFloat(a[0]); o2[0] = glm::floatDistance(a[0], a[1]);', lambda i: [z3.Not(is_nan(x)) for x in i[0]], 'non-NaN')
+    add('ulp_' + s_, [(Tf, 2)], [(Tf, 2), ('int64_t', 1)], 'o[0] = glm::nextFloat(a[0]); o[1] = glm::prevFloat(a[0]); o2[0] = glm::floatDistance(a[0], a[1]);', lambda i, W=W: [z3.Not(is_nan(x)) for x in i[0]] + [_dist(i[0][0], i[0][1]) < (1 << (W - 1))], 'non-NaN, ULP distance representable in the return type')
     add('fminmax_' + s_, [(Tf, 4)], [(Tf, 4)], 'o[0] = glm::fmin(a[0], a[1], a[2], a[3]); o[1] = glm::fmax(a[0], a[1], a[2]); o[2] = glm::fclamp(a[0], a[1], a[2]); o[3] = glm::smoothstep(a[0], a[1], a[2]);')
     add('conv_' + s_, [(Tf, 4)], [('int32_t', 4), ('uint32_t', 4)], 'stv(o, glm::ivec4(ldv<4,%s>(a))); stv(o2, glm::uvec4(glm::abs(ldv<4,%s>(a))));' % (Tf, Tf),
         lambda i, W=W: [z3.And(z3.Not(is_nan(x)), z3.fpLT(z3.fpAbs(fpof(x)), FPV(2.0 ** 31, W))) for x in i[0]], '|x| < 2^31, non-NaN (value-preserving static_cast domain)')
@@ -83,8 +87,8 @@ add('lowp_isqrt', [('float', 4)], [('float', 4)], 'stv(o, glm::inversesqrt(ldv<4
 NN = lambda *ks: (lambda i: [z3.Not(is_nan(x)) for k in ks for x in i[k]])
 add('pk_norm', [('float', 4)], [('uint32_t', 4), ('uint16_t', 2), ('uint8_t', 2)], 'glm::vec4 v = ldv<4,float>(a); o[0] = glm::packUnorm4x8(v); o[1] = glm::packSnorm4x8(v); o[2] = glm::packUnorm2x16(glm::vec2(v)); o[3] = glm::packSnorm2x16(glm::vec2(v)); o2[0] = glm::packUnorm2x8(glm::vec2(v)); o2[1] = glm::packSnorm2x8(glm::vec2(v)); o3[0] = glm::packUnorm1x8(v.x); o3[1] = glm::packSnorm1x8(v.x);', NN(0), 'non-NaN components')
 add('pk_norm2', [('float', 4)], [('uint64_t', 2), ('uint32_t', 3), ('uint16_t', 5)], 'glm::vec4 v = ldv<4,float>(a); o[0] = glm::packUnorm4x16(v); o[1] = glm::packSnorm4x16(v); o2[0] = glm::packUnorm3x10_1x2(v); o2[1] = glm::packSnorm3x10_1x2(v); o2[2] = glm::packF2x11_1x10(glm::vec3(v)); o3[0] = glm::packUnorm1x16(v.x); o3[1] = glm::packSnorm1x16(v.x); o3[2] = glm::packUnorm1x5_1x6_1x5(glm::vec3(v)); o3[3] = glm::packUnorm3x5_1x1(v); o3[4] = glm::packUnorm4x4(v);', NN(0), 'non-NaN components',
-    known=['KF-C20-packF2x11-shift'])
-add('pk_small', [('float', 3)], [('uint8_t', 2), ('uint32_t', 1)], 'glm::vec3 v = ldv<3,float>(a); o[0] = glm::packUnorm2x4(glm::vec2(v)); o[1] = glm::packUnorm2x3_1x2(v); o2[0] = glm::packF3x9_E1x5(v);',
+    )
+add('pk_small', [('float', 3)], [('uint8_t', 2)], 'glm::vec3 v = ldv<3,float>(a); o[0] = glm::packUnorm2x4(glm::vec2(v)); o[1] = glm::packUnorm2x3_1x2(v);',
     lambda i: [z3.And(z3.Not(is_nan(x)), z3.fpGEQ(fpof(x), FPV(0.0)), z3.fpLEQ(fpof(x), FPV(65408.0))) for x in i[0]], 'components in [0, 65408] (shared-exponent range)')
 add('pk_int', [('int32_t', 4)], [('uint32_t', 2), ('uint64_t', 2)], 'glm::ivec4 v = ldv<4,int32_t>(a); o[0] = glm::packI3x10_1x2(v); o[1] = glm::packU3x10_1x2(glm::uvec4(v)); o2[0] = glm::packInt2x32(glm::i32vec2(v)); o2[1] = glm::packUint4x16(glm::u16vec4(v));')
 add('upk', [('uint32_t', 1), ('uint64_t', 1), ('uint16_t', 1), ('uint8_t', 1)], [('float', 4)] * 4, 'stv(o, glm::unpackUnorm4x8(a[0]) + glm::unpackSnorm4x8(a[0]) + glm::unpackUnorm3x10_1x2(a[0]) + glm::unpackSnorm3x10_1x2(a[0])); stv(o2, glm::unpackUnorm4x16(b[0]) + glm::unpackSnorm4x16(b[0]) + glm::unpackHalf4x16(b[0])); stv(o3, glm::vec4(glm::unpackF2x11_1x10(a[0]), glm::unpackHalf1x16(c[0])) + glm::vec4(glm::unpackF3x9_E1x5(a[0]), 0.f)); stv(o4, glm::unpackUnorm4x4(c[0]) + glm::unpackUnorm3x5_1x1(c[0]) + glm::vec4(glm::unpackUnorm2x4(d[0]), glm::unpackUnorm1x8(d[0]), glm::unpackSnorm1x8(d[0])));', unwind=12)
@@ -96,6 +100,13 @@ add('index_m', [('float', 12), ('int', 2)], [('float', 1)], 'glm::mat<4,3,float>
 add('index_q', [('float', 4), ('int', 1)], [('float', 1)], 'glm::quat q = ldq<float>(a); o[0] = q[b[0]];', lambda i: [i[1][0] >= 0, i[1][0] < 4], '0 <= i < 4')
 add('index_set', [('int32_t', 4), ('int', 1)], [('int32_t', 4)], 'glm::ivec4 v = ldv<4,int32_t>(a); v[b[0]] = 7; stv(o, v);', lambda i: [i[1][0] >= 0, i[1][0] < 4], '0 <= i < 4')
 
+def _roundeven_region(res, i):
+    out = []
+    for x in res.ins[0]:
+        W = x.size(); xf = fpof(x)
+        out.append(z3.Or(z3.fpIsNaN(xf), z3.fpIsInf(xf), z3.fpGEQ(z3.fpAbs(xf), FPV(2.0 ** 31, W))))
+    return z3.Or(*out)
+REGIONS = {'roundeven_out_of_int': _roundeven_region}
 def units(tier): return [(U, '-O1', True)]
 NATIVE = False
 
